@@ -5,6 +5,7 @@ from jaxtyping import Float
 from torch import Tensor
 
 from linear_operator.operators._linear_operator import LinearOperator
+from linear_operator.utils.generic import _to_helper
 
 
 class AbstractPermutationLinearOperator(LinearOperator):
@@ -45,6 +46,19 @@ class AbstractPermutationLinearOperator(LinearOperator):
     def dtype(self) -> Optional[torch.dtype]:
         return self._dtype
 
+    def to(self: LinearOperator, *args, **kwargs) -> LinearOperator:
+        # the dtype of a permutation operator is a constructor argument, not the dtype of its (integer) index tensors:
+        # only the device is applied to those
+        device, dtype = _to_helper(*args, **kwargs)
+        new_args = [arg.to(device=device) if torch.is_tensor(arg) and device is not None else arg for arg in self._args]
+        new_kwargs = dict(self._kwargs)
+        if dtype is not None:
+            new_kwargs["dtype"] = dtype
+        return self.__class__(*new_args, **new_kwargs)
+
+    def type(self: LinearOperator, dtype: torch.dtype) -> LinearOperator:
+        return self.to(dtype)
+
 
 class PermutationLinearOperator(AbstractPermutationLinearOperator):
     r"""LinearOperator that lazily represents a permutation matrix with O(n) memory.
@@ -66,6 +80,7 @@ class PermutationLinearOperator(AbstractPermutationLinearOperator):
         perm: Tensor,
         inv_perm: Optional[Tensor] = None,
         validate_args: bool = True,
+        dtype: torch.dtype = torch.float32,
     ):
         if not isinstance(perm, Tensor):
             raise ValueError("perm is not a Tensor.")
@@ -92,8 +107,8 @@ class PermutationLinearOperator(AbstractPermutationLinearOperator):
 
         self.perm = perm
         self.inv_perm = inv_perm
-        self._dtype = torch.float32
-        super().__init__(perm, inv_perm, validate_args=validate_args)
+        self._dtype = dtype
+        super().__init__(perm, inv_perm, validate_args=validate_args, dtype=dtype)
 
     def _matmul(
         self: Float[LinearOperator, "*batch M N"],
@@ -132,7 +147,7 @@ class PermutationLinearOperator(AbstractPermutationLinearOperator):
         return torch.Size((*self.perm.shape, self.perm.shape[-1]))
 
     def _transpose_nonbatch(self: Float[LinearOperator, "*batch M N"]) -> Float[LinearOperator, "*batch N M"]:
-        return PermutationLinearOperator(perm=self.inv_perm, inv_perm=self.perm, validate_args=False)
+        return PermutationLinearOperator(perm=self.inv_perm, inv_perm=self.perm, validate_args=False, dtype=self._dtype)
 
     def to_sparse(self) -> Tensor:
         """Returns a sparse CSR tensor that represents the PermutationLinearOperator."""
@@ -157,14 +172,13 @@ class TransposePermutationLinearOperator(AbstractPermutationLinearOperator):
             the permutation matrix that the operator represents is then `n = m^2`.
     """
 
-    def __init__(self, m: int):
+    def __init__(self, m: int, dtype: torch.dtype = torch.float32):
         if m < 1:
             raise ValueError(f"m = {m} has to be a positive integer.")
-        super().__init__(m=m)
+        super().__init__(m=m, dtype=dtype)
         self.n = m * m  # size of implicitly represented linear operator
         self.m = m  # (m, m) is size of the reshaped input which is transposed
-        # self._dtype = type(m)
-        self._dtype = torch.float32
+        self._dtype = dtype
 
     def _matmul(
         self: Float[LinearOperator, "*batch M N"],
@@ -183,11 +197,6 @@ class TransposePermutationLinearOperator(AbstractPermutationLinearOperator):
     def dtype(self) -> Optional[torch.dtype]:
         return self._dtype
 
-    def type(self: LinearOperator, dtype: torch.dtype) -> LinearOperator:
-        # (a conversion returns a new operator: it must not change the dtype of this one)
-        res = self.__class__(self.m)
-        res._dtype = dtype
-        return res
 
     @property
     def device(self) -> Optional[torch.device]:
